@@ -217,10 +217,11 @@ theorem EnvMap.upd_other {env env' : Env} {x y : String} (h : EnvMap env env' x 
   simp only [Env.upd, hx, hy, if_false] at hu ⊢
   exact h u hu
 
-/-- **Renaming lemma**: the renamed expression, in an environment that binds the new names to (refinements of)
-    what the old names held, refines the original. -/
+/-- **Renaming lemma**: the renamed expression, in a (well-formed) environment that binds the new names to
+    (refinements of) what the old names held, refines the original. -/
 theorem rename_le_both (w : World) (hw : WorldOK w) :
     (∀ e : Expr, noComp e = true → ∀ (bound : List String) (m : List (String × String)) (env env' : Env),
+        EnvLe env' env' →
         (∀ x ∈ freeNames bound e, EnvMap env env' x (renM m x) ∧ (renM m x = x ∨ renM m x ∉ bindersOf e)) →
         (∀ x ∈ bound, renM m x = x ∧ EnvMap env env' x x) →
         (∀ x ∈ headNames e, renM m x = x) →
@@ -228,13 +229,19 @@ theorem rename_le_both (w : World) (hw : WorldOK w) :
         ((∀ x, e = .name x → renM m x = x) → HeadRel env env' (denHeadLz w e) (denHeadLz w (renameNames m e))) ∧
         LamRel env env' (denLamLz w e) (denLamLz w (renameNames m e))) ∧
     (∀ es : List Expr, noCompL es = true → ∀ (bound : List String) (m : List (String × String)) (env env' : Env),
+        EnvLe env' env' →
         (∀ x ∈ freeNamesL bound es, EnvMap env env' x (renM m x) ∧ (renM m x = x ∨ renM m x ∉ bindersOfL es)) →
         (∀ x ∈ bound, renM m x = x ∧ EnvMap env env' x x) →
         (∀ x ∈ headNamesL es, renM m x = x) →
         All2 (DRel env env') (denLLz w es) (denLLz w (renameNamesL m es)) ∧
         All2 (LamRel env env') (denLamLLz w es) (denLamLLz w (renameNamesL m es))) := by
+  have self1 : ∀ (e : Expr) (E : Env), EnvLe E E → RLe (denLz w e E) (denLz w e E) :=
+    fun e E hE => denLz_mono w hw e E E hE hE
+  have selfL : ∀ (e : Expr) (E : Env), EnvLe E E → LamRel E E (denLamLz w e) (denLamLz w e) :=
+    fun e E hE => ((denLz_mono_both w hw).1 e E E hE hE).2.2
   apply Expr.size.mutual_induct
     (motive_1 := fun e => noComp e = true → ∀ (bound : List String) (m : List (String × String)) (env env' : Env),
+        EnvLe env' env' →
         (∀ x ∈ freeNames bound e, EnvMap env env' x (renM m x) ∧ (renM m x = x ∨ renM m x ∉ bindersOf e)) →
         (∀ x ∈ bound, renM m x = x ∧ EnvMap env env' x x) →
         (∀ x ∈ headNames e, renM m x = x) →
@@ -242,13 +249,14 @@ theorem rename_le_both (w : World) (hw : WorldOK w) :
         ((∀ x, e = .name x → renM m x = x) → HeadRel env env' (denHeadLz w e) (denHeadLz w (renameNames m e))) ∧
         LamRel env env' (denLamLz w e) (denLamLz w (renameNames m e)))
     (motive_2 := fun es => noCompL es = true → ∀ (bound : List String) (m : List (String × String)) (env env' : Env),
+        EnvLe env' env' →
         (∀ x ∈ freeNamesL bound es, EnvMap env env' x (renM m x) ∧ (renM m x = x ∨ renM m x ∉ bindersOfL es)) →
         (∀ x ∈ bound, renM m x = x ∧ EnvMap env env' x x) →
         (∀ x ∈ headNamesL es, renM m x = x) →
         All2 (DRel env env') (denLLz w es) (denLLz w (renameNamesL m es)) ∧
         All2 (LamRel env env') (denLamLLz w es) (denLamLLz w (renameNamesL m es)))
   case case1 =>
-    intro x _ bound m env env' hf hb _
+    intro x _ bound m env env' he' hf hb _
     have hx : EnvMap env env' x (renM m x) := by
       by_cases hc : bound.contains x
       · have := hb x (by simpa using hc); rw [this.1]; exact this.2
@@ -257,7 +265,7 @@ theorem rename_le_both (w : World) (hw : WorldOK w) :
       simp only [renameNames, renM]
       cases renGet x m <;> rfl
     rw [hren]
-    refine ⟨?_, ?_, lamRel_none _ _⟩
+    refine ⟨?_, ?_, lamRel_none_none _ _⟩
     · intro v hv
       simp only [denLz] at hv ⊢
       cases hxe : env x with
@@ -270,48 +278,48 @@ theorem rename_le_both (w : World) (hw : WorldOK w) :
       simp only [denHeadLz, HeadRel]
       exact (hh x rfl).symm
   case case2 =>
-    intro c _ bound m env env' _ _ _
+    intro c _ bound m env env' _ _ _ _
     simp only [renameNames]
-    exact ⟨RLe.refl_of_ok (fun v h => constVal_wf c v h), fun _ => by simp [denHeadLz, HeadRel], lamRel_none _ _⟩
+    exact ⟨RLe.refl_of_ok (fun v h => constVal_wf c v h), fun _ => by simp [denHeadLz, HeadRel], lamRel_none_none _ _⟩
   case case3 =>
-    intro v a ih hn bound m env env' hf hb hh
+    intro v a ih hn bound m env env' he' hf hb hh
     simp only [noComp] at hn
-    have h := (ih hn bound m env env' (by simpa [freeNames, bindersOf] using hf) hb (by simpa [headNames] using hh)).1
+    have h := (ih hn bound m env env' he' (by simpa [freeNames, bindersOf] using hf) hb (by simpa [headNames] using hh)).1
     simp only [renameNames]
-    refine ⟨?_, fun _ => by simp only [denHeadLz, HeadRel, true_and]; exact h, lamRel_none _ _⟩
+    refine ⟨?_, fun _ => by simp only [denHeadLz, HeadRel, true_and]; exact ⟨h, self1 _ _ he'⟩, lamRel_none_none _ _⟩
     simp only [denLz]
     exact RLe.bind h (fun x x' hx => getAttrLz_mono a hx)
   case case4 =>
-    intro f args kwn kwv ihf iha ihk hn bound m env env' hf hb hh
+    intro f args kwn kwv ihf iha ihk hn bound m env env' he' hf hb hh
     simp only [noComp, Bool.and_eq_true] at hn
     simp only [freeNames, bindersOf, List.mem_append, not_or] at hf
     simp only [headNames, List.mem_append] at hh
-    have h1 := ihf hn.1.1 bound m env env' (fun x hx => ⟨(hf x (Or.inl (Or.inl hx))).1, (hf x (Or.inl (Or.inl hx))).2.imp_right (fun h => h.1.1)⟩) hb
+    have h1 := ihf hn.1.1 bound m env env' he' (fun x hx => ⟨(hf x (Or.inl (Or.inl hx))).1, (hf x (Or.inl (Or.inl hx))).2.imp_right (fun h => h.1.1)⟩) hb
       (fun x hx => hh x (Or.inl (Or.inl (Or.inr hx))))
-    have h2 := iha hn.1.2 bound m env env' (fun x hx => ⟨(hf x (Or.inl (Or.inr hx))).1, (hf x (Or.inl (Or.inr hx))).2.imp_right (fun h => h.1.2)⟩) hb
+    have h2 := iha hn.1.2 bound m env env' he' (fun x hx => ⟨(hf x (Or.inl (Or.inr hx))).1, (hf x (Or.inl (Or.inr hx))).2.imp_right (fun h => h.1.2)⟩) hb
       (fun x hx => hh x (Or.inl (Or.inr hx)))
-    have h3 := ihk hn.2 bound m env env' (fun x hx => ⟨(hf x (Or.inr hx)).1, (hf x (Or.inr hx)).2.imp_right (fun h => h.2)⟩) hb
+    have h3 := ihk hn.2 bound m env env' he' (fun x hx => ⟨(hf x (Or.inr hx)).1, (hf x (Or.inr hx)).2.imp_right (fun h => h.2)⟩) hb
       (fun x hx => hh x (Or.inr hx))
     simp only [renameNames]
-    refine ⟨?_, fun _ => by simp [denHeadLz, HeadRel], lamRel_none _ _⟩
+    refine ⟨?_, fun _ => by simp [denHeadLz, HeadRel], lamRel_none_none _ _⟩
     simp only [denLz]
     refine callSemLz_rel w hw kwn (h1.2.1 ?_) h2.1 h2.2 h3.1
     intro x hx
     subst hx
     exact hh x (Or.inl (Or.inl (Or.inl (by simp))))
   case case5 =>
-    intro ps b ih hn bound m env env' hf hb hh
+    intro ps b ih hn bound m env env' he' hf hb hh
     simp only [noComp] at hn
     simp only [freeNames, bindersOf, List.mem_append, not_or] at hf
     simp only [headNames] at hh
     simp only [renameNames]
     -- the body, with the parameters bound on both sides
-    have body : ∀ (e2 e2' : Env),
+    have body : ∀ (e2 e2' : Env), EnvLe e2' e2' →
         (∀ p ∈ ps, EnvMap e2 e2' p p) →
         (∀ x, x ∉ ps → e2 x = env x) → (∀ y, y ∉ ps → e2' y = env' y) →
         RLe (denLz w b e2) (denLz w (renameNames (ps.reverse.map (fun p => (p, p)) ++ m) b) e2') := by
-      intro e2 e2' hps h2 h2'
-      refine (ih hn (ps ++ bound) _ e2 e2' ?_ ?_ ?_).1
+      intro e2 e2' he2' hps h2 h2'
+      refine (ih hn (ps ++ bound) _ e2 e2' he2' ?_ ?_ ?_).1
       · intro x hx
         have hxb := freeNames_not_bound hx
         have hxps : x ∉ ps := fun h => hxb (List.mem_append_left _ h)
@@ -344,15 +352,17 @@ theorem rename_le_both (w : World) (hw : WorldOK w) :
         by_cases hxps : x ∈ ps
         · simp [hxps]
         · simp only [hxps, if_false]; exact hh x hx
+    have hself := selfL (.lam ps (renameNames (ps.reverse.map (fun p => (p, p)) ++ m) b)) env' he'
+    simp only [denLamLz] at hself
     refine ⟨RLe.error _ _, fun _ => ?_, ?_⟩
     · simp only [denHeadLz, HeadRel]
-      intro vs vs' kwn kvs kvs' hv hk
+      intro vs vs' kwn kvs kvs' hv hv' hk hk'
       intro out ho
       cases hbp : bindParams ps vs kwn kvs env with
       | error e => rw [hbp] at ho; cases ho
       | ok env2 =>
         rw [hbp] at ho
-        have key : ∃ env2', bindParams ps vs' kwn kvs' env' = .ok env2' ∧
+        have key : ∃ env2', bindParams ps vs' kwn kvs' env' = .ok env2' ∧ EnvLe env2' env2' ∧
             (∀ p ∈ ps, EnvMap env2 env2' p p) ∧ (∀ y, y ∉ ps → env2' y = env' y) := by
           -- binding does not look at the environment: go through the empty one, where refinement applies
           obtain ⟨_, a2⟩ := bindParams_agree ps vs kwn kvs env Env.empty
@@ -361,27 +371,31 @@ theorem rename_le_both (w : World) (hw : WorldOK w) :
           obtain ⟨e0', he0', hle⟩ := bindParams_rel ps kwn hle0 hv hk e0 he0
           obtain ⟨_, b2⟩ := bindParams_agree ps vs' kwn kvs' Env.empty env'
           obtain ⟨env2', h2', _, hps2⟩ := b2 e0' he0'
-          refine ⟨env2', h2', ?_, bindParams_frame ps vs' kwn kvs' env' env2' h2'⟩
+          obtain ⟨env2'', h2'', hle2⟩ := bindParams_rel ps kwn he' hv' hk' env2' h2'
+          have : env2'' = env2' := by rw [h2'] at h2''; cases h2''; rfl
+          subst this
+          refine ⟨env2'', h2', hle2, ?_, bindParams_frame ps vs' kwn kvs' env' env2'' h2'⟩
           intro p hp u hu
           rw [hps0 p hp] at hu
           obtain ⟨u', hu', huu⟩ := hle p u hu
           exact ⟨u', by rw [← hps2 p hp]; exact hu', huu⟩
-        obtain ⟨env2', hb', hps, hfr'⟩ := key
+        obtain ⟨env2', hb', hle2, hps, hfr'⟩ := key
         rw [hb']
-        exact body env2 env2' hps (bindParams_frame ps vs kwn kvs env env2 hbp) hfr' out ho
+        exact body env2 env2' hle2 hps (bindParams_frame ps vs kwn kvs env env2 hbp) hfr' out ho
     · simp only [denLamLz]
-      constructor
-      · intro v v' hv
+      refine ⟨?_, hself.1, ?_, hself.2.2.1⟩
+      · intro v v' hv hv'
         match ps with
         | [x] =>
           simp only [applyLam1]
           apply body
+          · exact he'.upd x hv'
           · intro p hp; simp only [List.mem_singleton] at hp; subst hp; exact EnvMap.upd_same p hv
           · intro y hy; simp only [List.mem_singleton] at hy; simp [Env.upd, hy]
           · intro y hy; simp only [List.mem_singleton] at hy; simp [Env.upd, hy]
         | [] => exact RLe.error _ _
         | _ :: _ :: _ => exact RLe.error _ _
-      · intro a a' v v' ha hv
+      · intro a a' v v' ha ha' hv hv'
         match ps with
         | [x, y] =>
           simp only [applyLam2]
@@ -389,6 +403,7 @@ theorem rename_le_both (w : World) (hw : WorldOK w) :
           · exact RLe.error _ _
           · rename_i hxy
             apply body
+            · exact (he'.upd x ha').upd y hv'
             · intro p hp
               simp only [List.mem_cons, List.not_mem_nil, or_false] at hp
               by_cases hpy : p = y
@@ -406,79 +421,79 @@ theorem rename_le_both (w : World) (hw : WorldOK w) :
         | [_] => exact RLe.error _ _
         | _ :: _ :: _ :: _ => exact RLe.error _ _
   case case6 =>
-    intro v s ihv ihs hn bound m env env' hf hb hh
+    intro v s ihv ihs hn bound m env env' he' hf hb hh
     simp only [noComp, Bool.and_eq_true] at hn
     simp only [freeNames, bindersOf, List.mem_append, not_or] at hf
     simp only [headNames, List.mem_append] at hh
-    have h1 := (ihv hn.1 bound m env env' (fun x hx => ⟨(hf x (Or.inl hx)).1, (hf x (Or.inl hx)).2.imp_right (fun h => h.1)⟩) hb (fun x hx => hh x (Or.inl hx))).1
-    have h2 := (ihs hn.2 bound m env env' (fun x hx => ⟨(hf x (Or.inr hx)).1, (hf x (Or.inr hx)).2.imp_right (fun h => h.2)⟩) hb (fun x hx => hh x (Or.inr hx))).1
+    have h1 := (ihv hn.1 bound m env env' he' (fun x hx => ⟨(hf x (Or.inl hx)).1, (hf x (Or.inl hx)).2.imp_right (fun h => h.1)⟩) hb (fun x hx => hh x (Or.inl hx))).1
+    have h2 := (ihs hn.2 bound m env env' he' (fun x hx => ⟨(hf x (Or.inr hx)).1, (hf x (Or.inr hx)).2.imp_right (fun h => h.2)⟩) hb (fun x hx => hh x (Or.inr hx))).1
     simp only [renameNames]
-    refine ⟨?_, fun _ => by simp [denHeadLz, HeadRel], lamRel_none _ _⟩
+    refine ⟨?_, fun _ => by simp [denHeadLz, HeadRel], lamRel_none_none _ _⟩
     simp only [denLz]
     exact RLe.bind h1 (fun x x' hx => RLe.bind h2 (fun i i' hi => subscriptLz_mono hx hi))
   case case7 =>
-    intro es ih hn bound m env env' hf hb hh
+    intro es ih hn bound m env env' he' hf hb hh
     simp only [noComp] at hn
-    have h := (ih hn bound m env env' (by simpa [freeNames, bindersOf] using hf) hb (by simpa [headNames] using hh)).1
+    have h := (ih hn bound m env env' he' (by simpa [freeNames, bindersOf] using hf) hb (by simpa [headNames] using hh)).1
     simp only [renameNames]
-    refine ⟨?_, fun _ => by simp [denHeadLz, HeadRel], lamRel_none _ _⟩
+    refine ⟨?_, fun _ => by simp [denHeadLz, HeadRel], lamRel_none_none _ _⟩
     simp only [denLz]
-    apply RLeS.bindR (evalAll_rel h)
-    intro vs vs' hv out ho
+    apply RLeS.bindR (evalAll_rel h) (evalAll_rel_self h)
+    intro vs vs' hv _ out ho
     cases ho
     exact ⟨.tuple vs', rfl, by simpa [VLe] using hv⟩
   case case8 =>
-    intro es ih hn bound m env env' hf hb hh
+    intro es ih hn bound m env env' he' hf hb hh
     simp only [noComp] at hn
-    have h := (ih hn bound m env env' (by simpa [freeNames, bindersOf] using hf) hb (by simpa [headNames] using hh)).1
+    have h := (ih hn bound m env env' he' (by simpa [freeNames, bindersOf] using hf) hb (by simpa [headNames] using hh)).1
     simp only [renameNames]
-    refine ⟨?_, fun _ => by simp [denHeadLz, HeadRel], lamRel_none _ _⟩
+    refine ⟨?_, fun _ => by simp [denHeadLz, HeadRel], lamRel_none_none _ _⟩
     simp only [denLz]
-    apply RLeS.bindR (evalAll_rel h)
-    intro vs vs' hv out ho
+    apply RLeS.bindR (evalAll_rel h) (evalAll_rel_self h)
+    intro vs vs' hv _ out ho
     cases ho
     exact ⟨.list vs', rfl, by simp only [VLe]; exact hv.toL⟩
   case case9 =>
-    intro ks vs ihk ihv hn bound m env env' hf hb hh
+    intro ks vs ihk ihv hn bound m env env' he' hf hb hh
     simp only [noComp, Bool.and_eq_true] at hn
     simp only [freeNames, bindersOf, List.mem_append, not_or] at hf
     simp only [headNames, List.mem_append] at hh
-    have h1 := (ihk hn.1 bound m env env' (fun x hx => ⟨(hf x (Or.inl hx)).1, (hf x (Or.inl hx)).2.imp_right (fun h => h.1)⟩) hb (fun x hx => hh x (Or.inl hx))).1
-    have h2 := (ihv hn.2 bound m env env' (fun x hx => ⟨(hf x (Or.inr hx)).1, (hf x (Or.inr hx)).2.imp_right (fun h => h.2)⟩) hb (fun x hx => hh x (Or.inr hx))).1
+    have h1 := (ihk hn.1 bound m env env' he' (fun x hx => ⟨(hf x (Or.inl hx)).1, (hf x (Or.inl hx)).2.imp_right (fun h => h.1)⟩) hb (fun x hx => hh x (Or.inl hx))).1
+    have h2 := (ihv hn.2 bound m env env' he' (fun x hx => ⟨(hf x (Or.inr hx)).1, (hf x (Or.inr hx)).2.imp_right (fun h => h.2)⟩) hb (fun x hx => hh x (Or.inr hx))).1
     simp only [renameNames]
-    refine ⟨?_, fun _ => by simp [denHeadLz, HeadRel], lamRel_none _ _⟩
+    refine ⟨?_, fun _ => by simp [denHeadLz, HeadRel], lamRel_none_none _ _⟩
     simp only [denLz]
-    apply RLeS.bindR (evalAll_rel h1)
-    intro kv kv' hkv
-    apply RLeS.bindR (evalAll_rel h2)
-    intro vv vv' hvv
+    apply RLeS.bindR (evalAll_rel h1) (evalAll_rel_self h1)
+    intro kv kv' hkv _
+    apply RLeS.bindR (evalAll_rel h2) (evalAll_rel_self h2)
+    intro vv vv' hvv _
     rw [← VLeS.length hkv, ← VLeS.length hvv]
     split
     · exact mkDictLz_mono hkv hvv
     · exact RLe.error _ _
   case case10 =>
-    intro k args ih hn bound m env env' hf hb hh
+    intro k args ih hn bound m env env' he' hf hb hh
     simp only [noComp] at hn
-    have h := (ih hn bound m env env' (by simpa [freeNames, bindersOf] using hf) hb (by simpa [headNames] using hh)).1
+    have h := (ih hn bound m env env' he' (by simpa [freeNames, bindersOf] using hf) hb (by simpa [headNames] using hh)).1
     simp only [renameNames]
-    refine ⟨?_, fun _ => by simp [denHeadLz, HeadRel], lamRel_none _ _⟩
+    refine ⟨?_, fun _ => by simp [denHeadLz, HeadRel], lamRel_none_none _ _⟩
     simp only [denLz]
     exact evOpLz_mono k (All2_map_env h)
   case case11 =>
     intro kind el t i ifs a _ _ _ _ hn
     simp [noComp] at hn
   case case12 =>
-    intro _ bound m env env' _ _ _
+    intro _ bound m env env' _ _ _ _
     exact ⟨.nil, .nil⟩
   case case13 =>
-    intro e es ihe ihes hn bound m env env' hf hb hh
+    intro e es ihe ihes hn bound m env env' he' hf hb hh
     simp only [noCompL, Bool.and_eq_true] at hn
     simp only [freeNamesL, bindersOfL, List.mem_append, not_or] at hf
     simp only [headNamesL, List.mem_append] at hh
-    have h1 := ihe hn.1 bound m env env' (fun x hx => ⟨(hf x (Or.inl hx)).1, (hf x (Or.inl hx)).2.imp_right (fun h => h.1)⟩) hb (fun x hx => hh x (Or.inl hx))
-    have h2 := ihes hn.2 bound m env env' (fun x hx => ⟨(hf x (Or.inr hx)).1, (hf x (Or.inr hx)).2.imp_right (fun h => h.2)⟩) hb (fun x hx => hh x (Or.inr hx))
+    have h1 := ihe hn.1 bound m env env' he' (fun x hx => ⟨(hf x (Or.inl hx)).1, (hf x (Or.inl hx)).2.imp_right (fun h => h.1)⟩) hb (fun x hx => hh x (Or.inl hx))
+    have h2 := ihes hn.2 bound m env env' he' (fun x hx => ⟨(hf x (Or.inr hx)).1, (hf x (Or.inr hx)).2.imp_right (fun h => h.2)⟩) hb (fun x hx => hh x (Or.inr hx))
     simp only [renameNamesL]
-    exact ⟨.cons h1.1 h2.1, .cons h1.2.2 h2.2⟩
+    exact ⟨.cons ⟨h1.1, self1 _ _ he'⟩ h2.1, .cons h1.2.2 h2.2⟩
 
 /-- free names relative to a list of bound names: the free names that are not in the list -/
 theorem mem_freeNames_iff_both :
